@@ -189,6 +189,51 @@ pub fn drive(args: &HashMap<String, String>) {
                 }
             }
         }
+        // zero-padded path atoms inside the quoted body of an apply whose environment is not the whole environment
+        // (the optimiser's change of variables, sub_args / path_from_args), each in an environment built along the path
+        for bytes in [vec![0u8, 0, 5], vec![0, 0, 0, 1], vec![0, 0, 2], vec![0, 5], vec![0, 0, 0xff], vec![0, 0, 0x7f, 0xff], vec![0, 0, 0, 0, 0, 0, 0, 0, 6]] {
+            let p = V::A(bytes);
+            let q = |x: V| V::cons(V::A(vec![1]), x);
+            let app = |body: V, env: V| V::list(&[V::A(vec![2]), q(body), env]);
+            for envexpr in [V::A(vec![3]), V::A(vec![2]), V::A(vec![5]), V::list(&[V::A(vec![4]), V::A(vec![2]), V::A(vec![3])])] {
+                let progs = vec![app(p.clone(), envexpr.clone()), app(V::list(&[V::A(vec![4]), p.clone(), q(V::int(1))]), envexpr.clone())];
+                for prog in progs {
+                    cases.push(json!({"prog": prog.to_json(), "env": g.value(5).to_json()}));
+                    // a full binary tree of depth 7 with distinct leaves: every short path resolves
+                    fn full(d: usize, k: &mut i64) -> V {
+                        if d == 0 {
+                            *k += 1;
+                            V::int(4000 + *k)
+                        } else {
+                            let a = full(d - 1, k);
+                            let b = full(d - 1, k);
+                            V::cons(a, b)
+                        }
+                    }
+                    let mut k = 0;
+                    cases.push(json!({"prog": prog.to_json(), "env": full(7, &mut k).to_json()}));
+                }
+            }
+        }
+        // variadic operators with 1 .. 70 arguments (argument references are built by position)
+        for nargs in [1usize, 2, 7, 31, 32, 33, 61, 62, 63, 64, 65, 70] {
+            for (op, last) in [(16u8, V::int(3)), (14, V::A(vec![7])), (34, V::nil()), (33, V::int(1)), (24, V::int(5)), (11, V::A(vec![9]))] {
+                let mut args: Vec<V> = (0..nargs - 1).map(|i| V::cons(V::A(vec![1]), V::int(1 + (i % 3) as i64))).collect();
+                args.push(V::cons(V::A(vec![1]), last.clone()));
+                let mut items = vec![V::A(vec![op])];
+                items.extend(args);
+                cases.push(json!({"prog": V::list(&items).to_json(), "env": V::nil().to_json()}));
+                // the same with the arguments taken from the environment
+                let mut items2 = vec![V::A(vec![op])];
+                let mut path = num_bigint::BigUint::from(2u8);
+                for _ in 0..nargs {
+                    items2.push(V::A(path.to_bytes_be()));
+                    path = (path << 1) | num_bigint::BigUint::from(1u8);
+                }
+                let envl: Vec<V> = (0..nargs).map(|i| if i + 1 == nargs { last.clone() } else { V::int(1 + (i % 3) as i64) }).collect();
+                cases.push(json!({"prog": V::list(&items2).to_json(), "env": V::list(&envl).to_json()}));
+            }
+        }
         for k in [5usize, 30, 61, 62, 63, 64, 65, 70] {
             let mut e = V::A(vec![1]);
             for _ in 0..k {
